@@ -110,6 +110,26 @@ Theorem C17_linearizable_eval :
 Proof. exact eval_result. Qed.
 Print Assumptions C17_linearizable_eval.
 
+(* Frame.  Whatever the other goroutines do (other programs, other schedules,
+   other pool behaviour): a goroutine that runs the same program to the end
+   obtains the same results.  In the model Garble / Eval / Compute read the
+   circuit and Eval reads the tables of its own handle; the only mutable state
+   inside the Circuit is the scratch-pool pointer.  That the Go code has no
+   further mutable state in circuit.Circuit (no assignment to, address-taking
+   of, or method call on a receiver field in Garble, Eval, Compute or a *Circuit
+   method they call, beyond garblePool.Load/CompareAndSwap and the read-only
+   uses listed in harness c17) is checked on the source by the harness
+   (key c17:circuit-shared-state:unmodelled:...), and concurrent sessions with
+   different keys on one circuit are compared with the sessions run alone. *)
+Theorem C17_frame :
+  forall (progs progs' : list (list op)) (sched sched' : list sitem) (t : nat),
+    nth t progs [] = nth t progs' [] ->
+    let th := s_thr (run_from (init progs) sched) t in
+    let th' := s_thr (run_from (init progs') sched') t in
+    t_prog th = [] -> t_prog th' = [] -> t_res th = t_res th'.
+Proof. exact frame. Qed.
+Print Assumptions C17_frame.
+
 (* REGRESSION RECORD.  In the variant of the model in which the error returns
    inside Garble's two loops put the scratch back TWICE (explicit Put plus a
    deferred cleanup), one failed Garble followed by two overlapping garblings
